@@ -35,6 +35,23 @@ Theorem c06_text_key_in_range : forall s k, parse_i64 s = Some k -> in_i64 k.
 Proof. exact parse_in_range. Qed.
 Print Assumptions c06_text_key_in_range.
 
+(** A key bound at any position of a multi-parameter Bind is found, whatever the other
+    parameters contain (NULLs, text, binary of any length). *)
+Theorem c06_bind_any_position : forall before after ph fmts p k,
+  (forall j, existsb (Nat.eqb j) ph = true <-> j = S (length before)) ->
+  decode_param (fmt_of fmts (length before)) p = Key k ->
+  bind_keys ph fmts (before ++ p :: after) = [k].
+Proof. exact bind_position. Qed.
+Print Assumptions c06_bind_any_position.
+
+(** No text spelling makes a delivery path panic, and a spelling that is not a bigint never
+    selects a shard. *)
+Theorem c06_text_paths_total : forall s,
+  path_set_key s <> Panics /\ path_comment s <> Panics /\ path_bind_text s <> Panics /\
+  (parse_i64 s = None -> forall k, path_set_key s <> Key k /\ path_comment s <> Key k /\ path_bind_text s <> Key k).
+Proof. exact text_paths_total. Qed.
+Print Assumptions c06_text_paths_total.
+
 Theorem c06_set_shard_refused : forall cur v n, (n <= v)%N -> set_shard cur v n = (cur, false).
 Proof. exact set_shard_refused. Qed.
 Print Assumptions c06_set_shard_refused.
